@@ -1,9 +1,11 @@
-"""C12 — Pinocchio fast path ≡ Anchor implementation (translation validation, Engine K)."""
+"""C12 — Pinocchio fast path ≡ Anchor implementation (translation validation, Engine K; tick offset for a symbolic spacing: Engine M)."""
 ID = 'C12'
 LEVEL = 'translation_validation'
 TECHNIQUE = ('differential bounded model checking of the compiled code (Kani/CBMC, SAT): both implementations run on the '
              'same symbolic account bytes / arguments; same Ok fields, same error code, byte-identical post-state. '
-             'Composition by assume-guarantee: leaf pairs are decided on their own, the composed harness summarises two of them.')
+             'Composition by assume-guarantee: leaf pairs are decided on their own, the composed harness summarises two of them. '
+             'Tick offset for a SYMBOLIC tick spacing: both implementations executed from their MIR into integer SMT (z3 5.1), every Pinocchio path paired with every Anchor path, '
+             'instances of monotonicity of multiplication supplied as hints (props/c12m.py).')
 
 # compared pairs: Pinocchio item  <->  Anchor item   [harness]
 FUNCTIONS = [
@@ -46,7 +48,8 @@ BOUNDS = [
     '(3 rewards, 7-step shift-subtract division, 32-byte key compares)',
     'tick-offset differential vs Anchor (% and /): tick_spacing in {1,2,4,…,32768} ∪ {3, 7, 96, 100, 32896, 65535}, every tick index, every valid start index; '
     'for EVERY tick_spacing >= 1 the Pinocchio routine is decided against its multiplication spec (Some(off) ⇔ in bounds ∧ t − start = off·spacing ∧ off < 88); '
-    'linking that spec to Anchor\'s % and / for a symbolic spacing is Euclid\'s division lemma, which bit-blasting does not close (> 900 s) — see OUTSIDE',
+    'linking that spec to Anchor\'s % and / for a symbolic spacing is Euclid\'s division lemma, which bit-blasting does not close (> 900 s): decided by Engine M instead '
+    '(offset_task: every spacing 1..65535, every i32 tick, every start = k*spacing in [MIN_TICK - 88*spacing, MAX_TICK]; 179 Pinocchio paths x Anchor paths, 532 obligations)',
     'fixed tick array: slot ADDRESSING is decided symbolically (returned reference == &FixedTickArray.ticks[off] == image + 12 + 113·off) and the per-tick data '
     'path on 113 bytes (MemoryMappedTick vs Tick); reading/writing tick data THROUGH the 9988-byte image does not terminate in CBMC (see OUTSIDE)',
     'composed harnesses take tick arrays as &dyn TickArray(Type) stand-ins (MockArr: one 113-byte tick, found / not-found, fixed / variable size, update requests '
@@ -75,8 +78,6 @@ ASSUMPTIONS = [
 
 OUTSIDE = [
     'CPI builders (account metas: pinocchio::cpi::*, pino_transfer_*), events; discriminator routing in entrypoint.rs uses Anchor constants by construction',
-    'tick-offset equivalence with Anchor for tick spacings outside the 22 listed values (needs the integer lemma: spacing | start ∧ 0 <= t − start < 88·spacing ⇒ '
-    '(t mod spacing = 0 ⇔ ∃ off < 88. t − start = off·spacing) ∧ floor((t − start)/spacing) = off — a two-line NIA obligation for Engine M)',
     'dynamic tick array tick DATA (get_tick / update_tick with rotate) — C13; here only header, bitmap and byte-offset map',
     'fixed tick array get_tick/update_tick DATA through the 9988-byte image (frame condition "no other byte written"): every formulation tried ran out of '
     'memory or time (90 M clauses with a symbolic slot; > 900 s / 40 GB with concrete slot 87). Decided instead: same slot address + same 113-byte tick codec',
@@ -90,4 +91,7 @@ OUTSIDE = [
 
 
 def run(ctx):
+    from props import c12m
+    ctx.mir()
+    ctx.parallel([('offset', c12m.offset_task)], max_procs=1)
     ctx.run_kani(['c12.rs'])
